@@ -88,7 +88,7 @@ def gen_cases(ctx):
     sizes = range(1, 5) if quick else range(1, 9)
     maxjobs = 20 if quick else 200
     sleeps = SLEEPS_Q if quick else SLEEPS_T
-    reps = 1 if quick else 6
+    reps = 1 if quick else 20
     # systematic part: per size — empty pool, exactly `n` barrier jobs (the all-workers rendezvous),
     # two rendezvous generations, a burst, a long job followed by short ones, drop at every position
     # of a short mixed sequence
@@ -105,7 +105,7 @@ def gen_cases(ctx):
             for d in range(0, m + 1):
                 cases.append(make_case(ctx, n, m, d, "mixed", sleeps))
     nsys = len(cases)
-    target = 200 if quick else 4000
+    target = 200 if quick else 30000
     while len(cases) < target:
         n = ctx.rng.choice(list(sizes))
         m = ctx.rng.below(maxjobs + 1)
